@@ -21,12 +21,16 @@ pub fn derive(node: &DeriveInput) -> Result<TokenStream> {
         Data::Struct(data) => {
             let input = Struct::from_syn(node, data)?;
             let input = DataType::Struct(&input);
+            #[cfg(o2o_verif)]
+            crate::verif::on_parsed(&input);
             validate(&input)?;
             Ok(data_type_impl(input))
         },
         Data::Enum(data) => {
             let input = Enum::from_syn(node, data)?;
             let input = DataType::Enum(&input);
+            #[cfg(o2o_verif)]
+            crate::verif::on_parsed(&input);
             validate(&input)?;
             Ok(data_type_impl(input))
         },
@@ -1056,6 +1060,8 @@ fn quote_trait(input: &DataType, ctx: &mut ImplContext) -> TokenStream {
         struct_post_init(input, ctx)
     };
     ctx.has_post_init = post_init.is_some();
+    #[cfg(o2o_verif)]
+    crate::verif::on_impl(&ctx.kind, ctx.fallible, &ctx.struct_attr.ty.path_str, ctx.has_post_init);
 
     match (ctx.kind, ctx.fallible) {
         (Kind::FromOwned, false) | (Kind::FromRef, false) => quote_from_trait(input, ctx, pre_init, main_code_block(ctx)),
